@@ -3,10 +3,10 @@ package main
 import (
 	"encoding/json"
 	"fmt"
-	"os"
 	"go/ast"
 	"go/parser"
 	"go/token"
+	"os"
 	"path/filepath"
 	"regexp"
 	"sort"
@@ -46,6 +46,38 @@ func typedOpProgs() []*Prog {
 			fmt.Sprintf("type P struct {\n\tx %s\n}\n\nfunc (p *P) get() %s {\n\treturn p.x\n}\n\nfunc (p *P) add(k %s) %s {\n\treturn p.x + k\n}\n\n", t, t, t, t))
 		add(t+"map-elem", []Param{{"a", t}, {"b", t}}, t, fmt.Sprintf("\tm := map[string]%s{\"k\": a}\n\tm[\"k\"] = m[\"k\"] + b\n\tm[\"k\"]++\n\tm[\"j\"] += 200\n\treturn m[\"k\"] + m[\"j\"]\n", t), "")
 		add(t+"global-call", []Param{{"a", t}, {"b", t}}, t, "\treturn twice(a) + twice(b) + 1\n", fmt.Sprintf("func twice(v %s) %s {\n\treturn v + v\n}\n\n", t, t))
+	}
+	// fusable statements inside nested blocks: the length of an inner block is baked into jump distances when the
+	// inner block is optimized, and the enclosing block is optimized again afterwards
+	stmts := []string{
+		"y = xs[1+2]", "y = a + (2 + 3)", "y = xs[1] + b", "xs[2-1] = b\n\t\ty = xs[1]", "y = m[\"k\"] + 1", "y = p.x + b",
+		"p.x += 2 + 1\n\t\ty = p.x", "y = twice(a) + 1 + 2", "y = a*2 - 1 + b/3", "y++\n\t\ty += 1 + 1", "y = -a + 4 - 2", "m[\"j\"] = a + 1\n\t\ty = m[\"j\"] - 1 - 1",
+	}
+	ctxs := map[string]string{
+		"if-then":  "\tif c {\n\t\t%s\n\t} else {\n\t\ty = 7\n\t}\n",
+		"if-else":  "\tif c {\n\t\ty = 7\n\t} else {\n\t\t%s\n\t}\n",
+		"for":      "\tfor i := 0; i < 2; i++ {\n\t\t%s\n\t\tz += y + i\n\t}\n",
+		"case":     "\tswitch {\n\tcase c:\n\t\t%s\n\tdefault:\n\t\ty = 7\n\t}\n",
+		"case2":    "\tswitch a {\n\tcase 1 + 1:\n\t\ty = 1\n\tcase 2 + 3, b + 1:\n\t\t%s\n\t}\n",
+		"nested":   "\tif a > 0 {\n\t\tif c {\n\t\t%s\n\t\t}\n\t\tz = 3\n\t} else {\n\t\ty = 7\n\t}\n",
+		"and-rhs":  "\tif c && xs[1+2] > a+(1+1) {\n\t\t%s\n\t}\n",
+		"or-rhs":   "\tif c || a+1+1 > xs[2-1] && b > 0 {\n\t\t%s\n\t}\n",
+		"range":    "\tfor _, v := range xs {\n\t\tif v > 3 {\n\t\t\tcontinue\n\t\t}\n\t\t%s\n\t\tz += y\n\t}\n",
+		"for-post": "\tfor i := 0; i < 1+1; i += 2 - 1 {\n\t\tif c {\n\t\t\tbreak\n\t\t}\n\t\t%s\n\t}\n",
+	}
+	decl := "type P struct {\n\tx int\n}\n\nfunc twice(v int) int {\n\treturn v + v\n}\n\n"
+	var cnames []string
+	for ci := range ctxs {
+		cnames = append(cnames, ci)
+	}
+	sort.Strings(cnames)
+	for _, ci := range cnames {
+		ctx := ctxs[ci]
+		for si, st := range stmts {
+			body := "\txs := []int{a, b, 3, 4, 5}\n\tm := map[string]int{\"k\": a}\n\tp := &P{x: b}\n\ty, z := 0, 0\n" +
+				fmt.Sprintf(ctx, st) + "\ty += 1000\n\tz += xs[0] + m[\"k\"] + p.x\n\treturn y + z\n"
+			add(fmt.Sprintf("nested/%s/%d", ci, si), []Param{{"a", "int"}, {"b", "int"}, {"c", "bool"}}, "int", body, decl)
+		}
 	}
 	return progs
 }
@@ -310,9 +342,9 @@ func checkC02(tier string, seed int64) int {
 	agg.Into(c, "")
 	// rule lemmas (shape L): symbolic instruction windows through the real doOptimize and exec
 	if os.Getenv("GOSX_NO_WINDOW") == "" {
-		win, fix := 2, 3
+		win, fix := 2, 4
 		if tier == "thorough" {
-			win, fix = 2, 4
+			win, fix = 2, 5
 		}
 		kinds := 0
 		if tier == "thorough" {
@@ -322,7 +354,15 @@ func checkC02(tier string, seed int64) int {
 		c.Eng.MaxPaths = 3_000_000
 		lagg := NewAgg()
 		var res []lemmaResult
-		for _, h := range []string{"verifH_C02_fixpoint", "verifH_C02_window"} {
+		if v := os.Getenv("GOSX_C02_FIX"); v != "" {
+			fmt.Sscan(v, &fix)
+			c.Eng.Cfg["c02_fix_window"] = fix
+		}
+		hs := []string{"verifH_C02_fixpoint", "verifH_C02_window"}
+		if v := os.Getenv("GOSX_ONLY"); v != "" {
+			hs = []string{v}
+		}
+		for _, h := range hs {
 			rep := c.Eng.ExploreWith(func(ex *gosx.Exec) {
 				ex.InitPackage(c.Eng.Pkg)
 				_, pan := ex.Call(ex.Func(h))
@@ -351,7 +391,7 @@ func checkC02(tier string, seed int64) int {
 	c.Cov("corpora", corp)
 	c.Cov("paths_compared", st.compared)
 	c.Cov("both_modes_fail_paths", st.bothPanic)
-	c.Cov("rule", "each program is compiled and run twice by goatlang's real code inside the engine — optimizer on and off (in-package pipeline replica of Eval with compiler.Optimize switched) — from identical symbolic inputs; compared: output text, number/dynamic type/value/rendering of results, success vs failure, and the file:line of the failure. Corpora: typed-operation programs (every fused opcode × every numeric type), the C05/C06/C08/C09/C11/C12/C13 generators, and every string literal of the repository's *_test.go files evaluated as a snippet")
+	c.Cov("rule", "each program is compiled and run twice by goatlang's real code inside the engine — optimizer on and off (in-package pipeline replica of Eval with compiler.Optimize switched) — from identical symbolic inputs; compared: output text, number/dynamic type/value/rendering of results, success vs failure, and the file:line of the failure. Corpora: typed-operation programs (every fused opcode × every numeric type; every fusable statement form inside every kind of nested block with code following it), the C05/C06/C08/C09/C11/C12/C13 generators, and every string literal of the repository's *_test.go files evaluated as a snippet")
 	c.Assumption("the optimizer-off pipeline is reachable only in-package; the harness replicates Eval's tokenize→parse→compile→run sequence with compiler.Optimize=false (and =true for the compared run)")
 	return c.Finish(false)
 }
